@@ -69,7 +69,7 @@ def shards(tier, seed):
 
 def pkind(spec):
     p = spec.get("p", "none")
-    return p if isinstance(p, str) else p[0]
+    return p if isinstance(p, str) else "chunk"  # plus- and minus-strand chunks ("chunk" / "chunkm")
 
 
 # ---------------------------------------------------------------------------------------------------------------------
@@ -478,7 +478,7 @@ def m_variant_from_dict_parent(d):
 
 def _disjoint_chunk(spec):
     p, b = spec.get("p"), spec.get("bounds")
-    return spec["c"] == "ac" and isinstance(p, list) and p[0] == "chunk" and bool(b) and (p[2] <= b[0] or p[1] >= b[1])
+    return spec["c"] == "ac" and isinstance(p, list) and p[0] in ("chunk", "chunkm") and bool(b) and (p[2] <= b[0] or p[1] >= b[1])
 
 
 def m_ac_disjoint_chunk(d):
